@@ -33,9 +33,9 @@ macro_rules! ev {
 }
 
 /// Emitted by the destructor of every harness value that has one.
-pub fn destruct(serial: u32) {
+pub fn destruct(serial: u32, panics: bool) {
     // try_borrow: a destructor may run while the log is borrowed only through a harness bug
-    ev(format_args!("{{\"ev\":\"destruct\",\"o\":{serial}}}"));
+    ev(format_args!("{{\"ev\":\"destruct\",\"o\":{serial},\"panics\":{panics}}}"));
 }
 
 pub fn take() -> String {
